@@ -43,6 +43,8 @@ type World struct {
 	cg      *callgraph.Graph
 	NFuncs  int
 	srcFile map[string][]string // cached source lines
+	// constLenNames: callee name → constant length of its slice result (see funcConstLen)
+	constLenNames map[string]int64
 }
 
 func relPkg(path string) string {
